@@ -479,10 +479,97 @@ def after_import_bounded(rep):
                 replay=dict(reproduced=True, detail=p.stdout.strip()[-400:]), replay_script=f"import subprocess\nenv = dict(os.environ); env['PYTHONPATH'] = {REPO!r}; env['PYTHONDONTWRITEBYTECODE'] = '1'\np = subprocess.run([sys.executable, '-c', {AFTER_SRC!r}], env=env, cwd='/')\nsys.exit(p.returncode)\n")
     rep.bounded.append(dict(kind='function-local injected checks after the import (bounded stand-in, NOT counted as proved)', probes=16, failing=int(p.returncode == 1)))
 
+def callable_typed(rep):
+    try: callable_typed_proof(rep); proved = True
+    except Exception as e:
+        proved = False
+        rep.extra['is_node_callable_typed_note'] = f'function-mode proof not applicable to the current text ({type(e).__name__}: {str(e)[:160]}): the bounded exhaustive contract below stands in'
+    # BOUNDED stand-in (always run; never counted as proved): every definition with <= 2 parameters of each of the three list kinds, each annotated or not,
+    # with / without *args, **kwargs (annotated or not) and a return annotation - the real tester on the real ast against "any annotation"
+    import itertools
+    import beartype._util.ast.utilasttest as mod
+    cases = 0; bad = []
+    def params(prefix, n, mask): return [f'{prefix}{i}' + (': int' if mask >> i & 1 else '') for i in range(n)]
+    for npos, nflex, nkw in itertools.product(range(3), repeat=3):
+        for mp_, mf_, mk_ in itertools.product(range(1 << npos), range(1 << nflex), range(1 << nkw)):
+            for va, vk, ret in itertools.product(('', '*a', '*a: int'), ('', '**k', '**k: int'), (False, True)):
+                parts = params('p', npos, mp_) + (['/'] if npos else []) + params('f', nflex, mf_) + ([va] if va else (['*'] if nkw else [])) + params('k', nkw, mk_) + ([vk] if vk else [])
+                src = f"def fn({', '.join(parts)}){' -> int' if ret else ''}: pass"
+                try: nd = ast.parse(src).body[0]
+                except SyntaxError: continue
+                cases += 1
+                want = bool(mp_ or mf_ or mk_ or 'int' in va or 'int' in vk or ret)
+                try: got = bool(mod.is_node_callable_typed(nd))
+                except Exception as e: got = f'{type(e).__name__}'
+                if got != want: bad.append((src, got, want))
+    if bad:
+        src, got, want = min(bad, key=lambda t: len(t[0]))
+        rep.add('C05.is_node_callable_typed.bounded.true_iff_any_annotation', 'refuted', backend='runtime-contract', bounded=True, where=f'{len(bad)} of {cases} definitions; smallest: `{src}` -> {got}, expected {want}',
+                solver_output='bounded exhaustive run-time contract on the real function (not a proof)', replay=dict(kind='C05', reproduced=True, detail=f'is_node_callable_typed(`{src}`) is {got}, expected {want}'),
+                replay_script=f"import ast\nsys.path.insert(0, os.environ.get('VERIF_REPO', '/repo'))\nfrom beartype._util.ast.utilasttest import is_node_callable_typed\ngot = bool(is_node_callable_typed(ast.parse({src!r}).body[0])); print(got)\nsys.exit(1 if got != {want!r} else 0)\n")
+    rep.bounded.append(dict(kind='is_node_callable_typed over every definition with <= 2 parameters per list kind (bounded stand-in, NOT counted as proved)' + ('' if proved else ' - the function-mode proof did not apply to the current text'), definitions=cases, failing=len(bad)))
+
+def callable_typed_proof(rep):
+    """the callee contract visit_FunctionDef relies on ("@beartype on every ANNOTATED function"): is_node_callable_typed(node) is True exactly when the
+    definition carries a return annotation or an annotation on ANY parameter - positional-only, positional-or-keyword, keyword-only, *args or **kwargs.
+    Function mode with the three parameter lists symbolic sequences of arbitrary length (loops under an invariant / quantified)."""
+    from pyvc import funcmode, model as M, discharge, symx
+    from pyvc.symx import Exec, St, VObj
+    import collections.abc as cabc
+    import beartype._util.ast.utilasttest as mod
+    fobj, node, _ = funcmode.load('beartype/_util/ast/utilasttest.py', 'is_node_callable_typed')
+    uni = M.Universe()
+    for c in (cabc.Sized, cabc.Collection, cabc.Sequence, cabc.Iterable, list): uni.const(c)
+    NONE = uni.const(None); NODE = z3.Const('node', M.Obj)
+    def F(n): return z3.Const(f'H_{n}', z3.ArraySort(M.Obj, M.Obj))
+    ARGS = z3.Select(F('args'), NODE)
+    lists = {k: z3.Select(F(k), ARGS) for k in ('posonlyargs', 'args', 'kwonlyargs')}
+    ann = lambda t: M.truthy(z3.Select(F('annotation'), t))
+    j = z3.Int('j_arg')
+    def some_annotated(L): return z3.Exists([j], z3.And(0 <= j, j < M.len_(L), ann(M.item(L, j))))
+    spec = z3.Or(M.truthy(z3.Select(F('returns'), NODE)), *[some_annotated(L) for L in lists.values()],
+                 *[z3.And(M.truthy(z3.Select(F(k), ARGS)), ann(z3.Select(F(k), ARGS))) for k in ('vararg', 'kwarg')])
+    pre = [M.inst(L, uni.const(list)) for L in lists.values()] + [z3.ForAll([z3.Const('lst', M.Obj)], z3.Implies(M.inst(z3.Const('lst', M.Obj), uni.const(list)), M.truthy(z3.Const('lst', M.Obj)) == (M.len_(z3.Const('lst', M.Obj)) > 0)))]
+    ex = Exec(uni, dict(mod.__dict__), call_model={}, name='is_node_callable_typed'); ex.fields_mode = True
+    ex.set_target(node)
+    # each `for arg in <list>: if arg.annotation: return True` loop: on fall-through no item seen so far is annotated
+    def mk_inv(ex_, i, env, B, s):
+        return z3.BoolVal(True)
+    k_ = z3.Int('k_inv')
+    def inv_for(listname):
+        def inv(ex_, i, env, B, s): return z3.ForAll([k_], z3.Implies(z3.And(0 <= k_, k_ < i), z3.Not(ann(M.item(lists[listname], k_)))))
+        return inv
+    # identify which list each loop iterates by its source text
+    loops = [n_ for n_ in ast.walk(node) if isinstance(n_, ast.For)]
+    contracts = {}
+    for idx, lp in enumerate(loops):
+        src = ast.unparse(lp.iter)
+        which = [k for k in lists if src.endswith('.' + k)]
+        if len(which) != 1: raise symx.Unsupported(f'cannot tell which parameter list loop {idx} iterates ({src})')
+        contracts[ex.loop_index[id(lp)]] = dict(name=f'over_{which[0]}', vars=[], inv=inv_for(which[0]))
+    ex.loop_contracts = contracts
+    body = [st for st in node.body if not isinstance(st, ast.Assert) and not (isinstance(st, ast.Expr) and isinstance(st.value, ast.Constant))]
+    try: outs = ex.exec_block(body, St((('node', VObj(NODE)),), tuple(pre)))
+    except symx.Unsupported as e: raise
+    pr = discharge.Prover(uni.axioms())
+    for ob in ex.obls:
+        r = pr.prove(list(ob.pc), ob.goal); rep.add(f'C05.is_node_callable_typed.{ob.kind}#{ob.name.rsplit(".", 1)[-1]}', r.status, time=r.time, backend=r.backend, where=ob.where, reason=r.reason)
+    n = 0
+    for i, (kind, s_, v) in enumerate(outs):
+        if kind != 'return': continue
+        n += 1
+        r = pr.prove(list(s_.pc), ex.truth(v) == spec)
+        rep.add(f'C05.is_node_callable_typed.post.true_iff_any_annotation.path{i}', r.status, time=r.time, backend=r.backend, reason=r.reason,
+                where='True exactly when the return or ANY parameter of any kind (positional-only, flexible, keyword-only, *args, **kwargs) is annotated; parameter lists of any length')
+    if not n: rep.error('C05.callable_typed: no returning path')
+    rep.functions.append('beartype/_util/ast/utilasttest.py:is_node_callable_typed (mode F: loop invariants over the three parameter lists)')
+
 def main(tier, seed):
     rep = report.Report('C05', tier, seed, 'other', f'./check C05 --tier {tier}')
     try: funcmode_part(rep)
     except Exception: rep.error('C05 funcmode: ' + traceback.format_exc()[-2500:])
+    try: callable_typed(rep)
+    except Exception: rep.error('C05 callable_typed: ' + traceback.format_exc()[-2500:])
     try: bounded(rep, tier, seed)
     except Exception: rep.error('C05 bounded: ' + traceback.format_exc()[-2500:])
     for fn in (import_tracking, isolation, isolation_bounded, after_import_bounded):
